@@ -123,7 +123,7 @@ def generate(R, tier, focus):
         elif x < 0.5:
             inp = R.random() < 0.5
             ops.append({'op': 'FILTER_SPATIAL', 'h': h, 'in_place': inp, 'actor': actor,
-                        'region_arg': R.choice((0, 1, 1, 2, 2))})
+                        'region_arg': R.choice((0, 1, 1, 2, 2)), 'update_stats': R.random() < 0.3})
             if not inp:
                 n_handles += 1
         elif x < 0.58:
@@ -348,10 +348,11 @@ def _execute(scn, ctx, store, clock):
             use = ra if ra else bound[hi]
             if ra and bound[hi] and ra != bound[hi]:
                 ctx.count('rare:spatial_filter_with_other_region_than_bound')
+            us = bool(op.get('update_stats'))
             if ra:
-                r = call(h.filter_spatial, regions[ra], in_place=op['in_place'])
+                r = call(h.filter_spatial, regions[ra], in_place=op['in_place'], update_stats=us)
             else:
-                r = call(h.filter_spatial, in_place=op['in_place'])
+                r = call(h.filter_spatial, in_place=op['in_place'], update_stats=us)
             if r[0] != 'ok':
                 ctx.violate('C04', 'exception', '%s:%s' % (label, r[1]), {'op': oi, 'msg': r[2]})
                 return
